@@ -12,8 +12,9 @@ EXTENDS PMC, TraceLib, Json
 TraceLog == ndJsonDeserialize("trace.ndjson")
 N == Len(TraceLog)
 
-VARIABLE l
-tvars == <<vars, l>>
+VARIABLES l,      \* position in TraceLog
+          half    \* transfers whose delivery was logged before the pick-up: set of <<src, kind, id>>
+tvars == <<vars, l, half>>
 
 ASSUME HWInit
 
@@ -21,7 +22,8 @@ NoFrames == [g \in GPUs |-> {}]
 Ev == TraceLog[l]
 Is(e) == l <= N /\ Ev.e = e /\ l' = l + 1
 
-TInit == EmptyInit([g \in GPUs |-> <<>>]) /\ l = 1
+TInit == EmptyInit([g \in GPUs |-> <<>>]) /\ l = 1 /\ half = {}
+Same == UNCHANGED half
 
 \* ------------------------------------------------------------ environment
 TEnvMig ==
@@ -29,12 +31,28 @@ TEnvMig ==
   /\ EnvMig(Ev.g, [id |-> Ev.id, from |-> Ev.from, to |-> Ev.to, n |-> Ev.size \div Unit,
                    owner |-> Ev.owner, src |-> Ev.src])
 TTakeComplete == Is("TakeComplete") /\ TakeComplete(Ev.g)
+\* One transfer between two controllers shows up as two hook events (RetrieveOutgoing at the sender,
+\* Recvd at the receiver).  A connection that stores messages logs the pick-up first; akita's
+\* DirectConnection delivers the head of the sender's buffer and only then removes it: the delivery
+\* is then NetTake;NetDeliver at once and the pick-up line that follows is only ticked off.
 TNetTake ==
-  /\ Is("NetTake") /\ remOut[Ev.g] # <<>>
-  /\ Head(remOut[Ev.g]).id = Ev.id /\ Head(remOut[Ev.g]).k = Ev.k /\ NetTake(Ev.g)
+  /\ Is("NetTake")
+  /\ \/ /\ remOut[Ev.g] # <<>> /\ Head(remOut[Ev.g]).id = Ev.id /\ Head(remOut[Ev.g]).k = Ev.k
+        /\ NetTake(Ev.g) /\ Same
+     \/ /\ <<Ev.g, Ev.k, Ev.id>> \in half /\ half' = half \ {<<Ev.g, Ev.k, Ev.id>>} /\ UNCHANGED vars
 TNetDeliver ==
   /\ Is("NetDeliver")
-  /\ \E m \in net : m.id = Ev.id /\ m.k = Ev.k /\ m.dst = Ev.g /\ NetDeliver(m)
+  /\ \/ /\ \E m \in net : m.id = Ev.id /\ m.k = Ev.k /\ m.dst = Ev.g /\ NetDeliver(m)
+        /\ Same
+     \/ \E s \in GPUs :
+          /\ remOut[s] # <<>>
+          /\ LET m == Head(remOut[s]) IN
+               /\ m.id = Ev.id /\ m.k = Ev.k /\ m.dst = Ev.g /\ s # Ev.g
+               /\ Len(remIn[Ev.g]) < PortCap
+               /\ remOut' = [remOut EXCEPT ![s] = Tail(@)]
+               /\ remIn' = [remIn EXCEPT ![Ev.g] = Append(@, m)]
+               /\ half' = half \cup {<<s, m.k, m.id>>}
+          /\ UNCHANGED <<reqv, ownv, memOut, memIn, envv, histv>>
 TMemTake ==
   /\ Is("MemTake") /\ memOut[Ev.g] # <<>> /\ Head(memOut[Ev.g]).id = Ev.id /\ MemTake(Ev.g)
 TMemRsp ==
@@ -110,9 +128,12 @@ TReset ==
      /\ issued' = [g \in GPUs |-> <<>>] /\ accepted' = [g \in GPUs |-> <<>>] /\ done' = [g \in GPUs |-> <<>>]
      /\ usedIds' = {} /\ pullSrc' = <<>> /\ mem0' = memory
 
-TNext == TEnvMig \/ TTakeComplete \/ TNetTake \/ TNetDeliver \/ TMemTake \/ TMemRsp
-         \/ TAccept \/ TSendPull \/ TRecvPull \/ TSendRead \/ TRecvMem \/ TSendPullRsp
-         \/ TRecvPullRsp \/ TSendWrite \/ TSendComplete \/ TStorage \/ TQuiesce \/ TReset
+TNext == \/ TNetTake \/ TNetDeliver
+         \/ /\ \/ TEnvMig \/ TTakeComplete \/ TMemTake \/ TMemRsp
+               \/ TAccept \/ TSendPull \/ TRecvPull \/ TSendRead \/ TRecvMem \/ TSendPullRsp
+               \/ TRecvPullRsp \/ TSendWrite \/ TSendComplete \/ TStorage
+            /\ Same
+         \/ (half = {} /\ (TQuiesce \/ TReset) /\ Same)
 
 TSpec == TInit /\ [][TNext]_tvars
 
